@@ -12,7 +12,7 @@ from ..dataflow import Def, bound_in_enclosing_comp
 from ..fold import Folder, RegexConst, single_class
 from ..loader import AnalysisError, FuncInfo, dotted, norm
 from ..report import Ctx
-from ._c14_helpers import J_, JOIN, T_, X_, Atom, Nulls, Prov, Summary, Unit, ancestor_conds, const_fact, empty_test, growth_args, harmless_const, held_elements, helper_atoms, implied, join_kind, nested_defs, own_nodes, parse_atom, position
+from ._c14_helpers import J_, JOIN, T_, X_, Atom, _derived, _loop_altsep, Nulls, Prov, Summary, Unit, ancestor_conds, const_fact, empty_test, growth_args, harmless_const, held_elements, helper_atoms, implied, join_kind, nested_defs, own_nodes, parse_atom, position
 
 LEVEL_TEXT = (
     "Static decision of structural clauses of C14 on /repo's current source (POSIX path semantics). (R14.1) in "
@@ -49,7 +49,18 @@ LEVEL_TEXT = (
     "constant returns of one truthiness and no path to the helper's exit avoids it - `return a or b`, sequential early "
     "returns, an explicit loop over the alternative separators and the negated polarity give the same summary), "
     "startswith with a tuple, `x[:n] == c`, `x.partition('/')[0] == '..'` / `x.split('/')[0] == '..'` (first segment); "
-    "`normpath unless empty` may be a statement or a conditional expression / `x and normpath(x)`. (R14.2) every "
+    "`(x + '/').startswith('../')` (first segment again); a part of the component bound to a local first (`first = "
+    "x.partition('/')[0]`, by index, by unpacking, by a walrus inside the test) is read as that part, evaluated where it "
+    "was bound, provided no path from a binding of the component to the test avoids that binding; the "
+    "alternative-separator test may be an explicit inner loop over the separators inside the iteration (every "
+    "separator reaches the test, passed = that loop exhausted); "
+    "`normpath unless empty` may be a statement or a conditional expression / `x and normpath(x)`. The whole sequence "
+    "may also enter the joined list in one step (`L.extend(S)`, `L += S`, `[*L, *S]`, `L + S`) behind a completed check "
+    "of every component, and a list that starts as `[directory, *components]` may have its slots overwritten "
+    "(`L[i] = x` under `enumerate(<components>, start=1)`, x that iteration's component raw or normalised: another "
+    "value or another slot is a violation, any other in-place change of such a list an analysis error); the sequence "
+    "may come out of a module-level helper that returns a sequence derived element by element or is a generator "
+    "yielding each element exactly once, raw or normalised. (R14.2) every "
     "filesystem sink (open, os.path.isfile/getmtime/getsize/exists/isdir, os.stat, send_file, open_resource, and "
     "pass-through helpers such as _opener) reached from utils.send_from_directory and SharedDataMiddleware - their "
     "nested callables and closures (every parameter request-derived, free variables looked up in the enclosing "
@@ -66,7 +77,8 @@ LEVEL_TEXT = (
     "`*` into os.path.join gives the held values back, and whatever is put into it in place (append / insert / extend / "
     "item or slice store, anywhere in the function) is part of what it holds. A function defined locally and only ever "
     "called by its name is followed like a module-level helper (parameters = what the calls pass). A filesystem "
-    "function used as a value (a table of probes) makes the sinks un-enumerable (analysis error). (R14.3) the None of a refusing safe_join call never arrives where the result is used as a value: for "
+    "function used as a value (a table of probes) makes the sinks un-enumerable (analysis error), and so does "
+    "safe_join used as a value (functools.partial(safe_join, base), an alias) for the containment checks. (R14.3) the None of a refusing safe_join call never arrives where the result is used as a value: for "
     "every use, every path from a definition that may hold the None (through copies, conditional arms, walrus "
     "bindings, a helper that hands the result or its refusal on, a parameter a caller binds to it) passes the "
     "not-None edge of a test about that value - `is None` / `is not None` / truthiness / isinstance, merged or split "
@@ -301,6 +313,7 @@ class _SafeJoin:
 
     def __init__(self, ctx: Ctx, helper: FuncInfo | None = None):
         self.ctx = ctx
+        self.helper = helper
         self.fi = helper or ctx.repo.func("security.safe_join")
         self.u = _unit_of(ctx, self.fi)
         self.fn = self.fi.node
@@ -401,11 +414,63 @@ class _SafeJoin:
             if inner is None or form is None:
                 return None
             return _Seq(inner.all and not g.ifs, inner.normal or form == "normal", norm(e)[:70])
+        if isinstance(e, ast.Call) and not e.keywords and len(e.args) == 1 and not isinstance(e.args[0], ast.Starred):
+            hs = self.helper_seq(e)
+            inner = self.seq_of(e.args[0], node, depth + 1) if hs is not None else None
+            if hs is not None and inner is not None:
+                return _Seq(inner.all and hs.all, inner.normal or hs.normal, norm(e)[:70])
         if isinstance(e, ast.Subscript) and isinstance(e.slice, ast.Slice):
             inner = self.seq_of(e.value, node, depth + 1)
             whole = e.slice.lower is None and e.slice.upper is None and e.slice.step is None
             return inner._replace(all=inner.all and whole, text=norm(e)) if inner is not None else None
         return None
+
+    def helper_seq(self, c: ast.Call) -> _Seq | None:
+        """a module-level helper that hands its (single) sequence parameter on element by element: it returns a
+        sequence derived from the parameter (`return [normpath(p) if p else p for p in names]`), or it is a generator
+        whose one loop over the parameter yields, as the last thing of every iteration, that iteration's element - raw
+        or normalised.  -> what the result is relative to the argument."""
+        h = _module_helper(self.u, c)
+        if h is None or self.helper is not None:
+            return None
+        cached = getattr(h, "_c14_seq", False)
+        if cached is not False:
+            return cached
+        h._c14_seq = None  # type: ignore[attr-defined]
+        a = h.node.args  # type: ignore[attr-defined]
+        pos = a.posonlyargs + a.args
+        if len(pos) != 1 or a.vararg or a.kwarg or a.kwonlyargs:
+            return None
+        sub = _SafeJoin(self.ctx, h)
+        sub.vararg = pos[0].arg
+        out: _Seq | None = None
+        yields = [n for n in own_nodes(h.node, through_lambdas=False) if isinstance(n, (ast.Yield, ast.YieldFrom))]
+        rets = astq.returns_of(h.node)
+        if yields:
+            loops = [st for st in h.node.body if isinstance(st, ast.For)]  # type: ignore[attr-defined]
+            y = yields[0]
+            last = loops[0].body[-1] if len(loops) == 1 and loops[0].body else None
+            ps = sub.pass_of(loops[0]) if len(loops) == 1 else None
+            leaves = [n for n in ast.walk(loops[0]) if isinstance(n, (ast.Break, ast.Continue, ast.Return))] if len(loops) == 1 else [None]
+            if len(yields) == 1 and isinstance(y, ast.Yield) and ps is not None and isinstance(ps.head.ast, ast.For) and not loops[0].orelse and not leaves and not any(r.value is not None for r in rets) and isinstance(last, ast.Expr) and last.value is y and isinstance(y.value, ast.Name):
+                yn = sub.cfg.node_of(last)
+                roots, norms, raw = _roots(sub.u, y.value.id, yn) if yn is not None else (set(), set(), set())
+                if yn is not None and len(roots) == 1 and roots <= ps.roots:
+                    root = next(iter(roots))
+                    normal = not raw
+                    if raw == {root} and norms:
+                        r = sub.cfg.reach([ps.head], avoid_nodes=[d.node for d in norms if d.node is not None], avoid_edges=_empty_edges(sub.u, root) + [(ps.head, "F")])
+                        normal = yn.id not in r
+                    out = _Seq(ps.seq.all, ps.seq.normal or normal, f"{h.name}(...)")
+        elif len(rets) == 1 and rets[0].value is not None:
+            rn = sub.cfg.node_of(rets[0])
+            sq = sub.seq_of(rets[0].value, rn) if rn is not None else None
+            if sq is not None:
+                out = sq._replace(text=f"{h.name}(...)")
+        if out is not None:
+            self.ctx.saw(h)
+        h._c14_seq = out  # type: ignore[attr-defined]
+        return out
 
     def pass_of(self, loop: ast.AST | None) -> _Pass | None:
         """the traversal a for loop performs, or None when it does not range over the components."""
@@ -453,7 +518,18 @@ class _SafeJoin:
         for tn in cfg.tests():
             if tn.kind != "test" or not u.inside(tn.ast, p.loop):
                 continue
-            cands, complete = _atoms_of_test(self.ctx, u, tn, p.head)
+            via: Node | None = None
+            la = _loop_altsep(u, tn)
+            if la is not None and la[4] is not p.loop and u.inside(la[4], p.loop):
+                # `for sep in <alternative separators>: if sep in x: <reject>` inside the iteration: the explicit-loop
+                # spelling of any(sep in x for sep in ...); passed = the inner loop exhausted
+                ih = cfg.node_of(la[4])
+                if ih is not None and self.every_alternative_tested(la[4], ih, tn, la[2]):
+                    cands, complete, via = [(la[0], la[1], la[2], la[3], f"{norm(tn.ast)} for {norm(la[4].target)} in {norm(la[4].iter)}", tn)], True, ih
+                else:
+                    cands, complete = None, True
+            else:
+                cands, complete = _atoms_of_test(self.ctx, u, tn, p.head)
             if cands is None:
                 if const_fact(u, tn.ast) is None and any(isinstance(x, ast.Name) and isinstance(x.ctx, ast.Load) and 0 < len(_roots(u, x.id, tn)[0]) and _roots(u, x.id, tn)[0] <= p.roots for x in ast.walk(tn.ast)):
                     unknown.append(norm(tn.ast))
@@ -479,10 +555,31 @@ class _SafeJoin:
                     continue  # emptiness test, not a reject atom
                 if not normal:
                     rawtests.append(text)
-                atoms.append(Atom(tn, lab, kind, consts, var, text, normal, en))
+                atoms.append(Atom(tn, lab, kind, consts, var, text, normal, en, via))
         self.n_atoms += len(atoms)
         self._pass_atoms[id(p.loop)] = (atoms, unknown, rawtests)
         return atoms, unknown, rawtests
+
+    def every_alternative_tested(self, loop: ast.For, ih: Node, tn: Node, holds: str) -> bool:
+        """inner loop `loop` (head `ih`) applies test `tn` to every element of its table: each of its iterations
+        reaches the test (nothing leaves the loop or starts the next round before it), and on the edge on which
+        the test does not hold the only way on is back to the head (no break / return that would skip the rest).
+        An `else` clause belongs to the exhausted edge and is fine."""
+        cfg, u = self.cfg, self.u
+        body = {id(x) for st in loop.body for x in ast.walk(st)}
+
+        def in_body(n: Node) -> bool:
+            return n is tn or (n.ast is not None and id(n.ast) in body)
+
+        by_id = {n.id: n for n in cfg.nodes}
+        first = [s for s in cfg.succ(ih, "T") if s is not tn]
+        before = cfg.reach(first, avoid_nodes=[tn, ih]) if first else set()
+        if ih.id in before or not all(in_body(by_id[i]) for i in before):
+            return False
+        passlab = "F" if holds == "T" else "T"
+        nxt = [s for s in cfg.succ(tn, passlab) if s is not ih]
+        after = cfg.reach(nxt, avoid_nodes=[ih]) if nxt else set()
+        return all(in_body(by_id[i]) for i in after)
 
     def refuses(self, test: Node, label: str, stop: list[Node]) -> bool:
         """does every path that leaves `test` on `label` end in `return None` - without coming back to a node in
@@ -532,7 +629,7 @@ class _SafeJoin:
             guarding = []
             usable_ = []
             for a in cover:
-                dom = sn.id not in cfg.reach(starts, avoid_edges=[(a.node, a.passlabel)])
+                dom = sn.id not in cfg.reach(starts, avoid_edges=[a.pass_edge])
                 same = w_roots is None or _roots(u, a.var.id, a.evalnode)[0] == w_roots
                 if same and (a.normal or not need_norm):
                     usable_.append(a)
@@ -550,7 +647,7 @@ class _SafeJoin:
                     # owe the `return None`; a test whose reject edge goes on to further tests is only a case split
                     guarding = [
                         a for a in usable_
-                        if sn.id in cfg.reach(cfg.succ(a.node, a.passlabel), avoid_nodes=[p.head]) and sn.id not in cfg.reach(cfg.succ(a.node, a.reject), avoid_nodes=[p.head])
+                        if sn.id in cfg.reach(cfg.succ(*a.pass_edge), avoid_nodes=[p.head]) and sn.id not in cfg.reach(cfg.succ(a.node, a.reject), avoid_nodes=[p.head])
                     ]
             ok = bool(guarding or cross or classes is not None)
             self.n_shapes += 1
@@ -587,7 +684,7 @@ class _SafeJoin:
         begin with a prefix no string of the shape begins with.  -> the constants / prefixes met at `sn` (sorted)
         when every path is settled, None when one is not."""
         cfg, rd, u = self.cfg, self.rd, self.u
-        settle = {(a.node.id, a.passlabel) for a in tests}
+        settle = {(a.pass_edge[0].id, a.pass_edge[1]) for a in tests}
         begins = {(a.node.id, a.reject): a for a in hints}
         arms = _selected_arms(arg)
         if arms is None:
@@ -691,7 +788,7 @@ class _SafeJoin:
             if target.id in cfg.reach(avoid_nodes=[p.head]) or target.id in cfg.reach(starts, avoid_nodes=[p.head], avoid_edges=rej):
                 continue
             for a in atoms:
-                if a.covers(what) and (a.normal or not need_norm) and p.head.id not in cfg.reach(starts, avoid_edges=[(a.node, a.passlabel)]) and self.refuses(a.node, a.reject, [p.head, target]):
+                if a.covers(what) and (a.normal or not need_norm) and p.head.id not in cfg.reach(starts, avoid_edges=[a.pass_edge]) and self.refuses(a.node, a.reject, [p.head, target]):
                     out.append(f"{a.text} (for {norm(loop.target)} in {norm(loop.iter)[:40]})")
         for tn in cfg.tests():
             if tn.kind != "test" or not isinstance(tn.ast, ast.Call) or self.u.resolve(tn.ast.func) not in ("builtins.any", "builtins.all") or len(tn.ast.args) != 1:
@@ -752,9 +849,26 @@ class _SafeJoin:
                 return nm, single(v.right)
             if isinstance(v, ast.Call) and self.u.resolve(v.func) in JOIN and len(v.args) == 2 and not v.keywords and astq.is_name(v.args[0], nm) and not isinstance(v.args[1], ast.Starred):
                 return nm, v.args[1]  # r = join(r, x): the incremental spelling of the same growth
+            if self.whole_of(st, nm) is not None:
+                return nm, None  # `[*L, *S]`: a whole sequence added (see `accumulator`)
             return None
         if isinstance(st, ast.Subscript) and isinstance(st.ctx, ast.Store) and isinstance(st.value, ast.Name) and st.value.id in names:
             return st.value.id, None
+        return None
+
+    def whole_of(self, st: ast.AST, name: str) -> ast.AST | None:
+        """the sequence a growth step adds as a whole: `L.extend(S)`, `L += S`, `L = [*L, *S]`, `L = L + S` (S possibly
+        wrapped in list(...) / tuple(...), which `seq_of` reads through)."""
+        if isinstance(st, ast.Call) and isinstance(st.func, ast.Attribute) and st.func.attr == "extend" and astq.is_name(st.func.value, name) and len(st.args) == 1 and not st.keywords and not isinstance(st.args[0], ast.Starred):
+            return st.args[0]
+        if isinstance(st, ast.AugAssign) and isinstance(st.op, ast.Add) and astq.is_name(st.target, name):
+            return st.value
+        if isinstance(st, ast.Assign) and len(st.targets) == 1 and astq.is_name(st.targets[0], name):
+            v = st.value
+            if isinstance(v, ast.List) and len(v.elts) == 2 and all(isinstance(x, ast.Starred) for x in v.elts) and astq.is_name(v.elts[0].value, name):  # type: ignore[attr-defined]
+                return v.elts[1].value  # type: ignore[attr-defined]
+            if isinstance(v, ast.BinOp) and isinstance(v.op, ast.Add) and astq.is_name(v.left, name):
+                return v.right
         return None
 
     def filter_helper(self, h: FuncInfo) -> bool:
@@ -859,6 +973,15 @@ class _SafeJoin:
         for site, arg in sites:
             sn = cfg.node_of(site)
             arms_ = _selected_arms(arg) if arg is not None else None
+            if arms_ is None and sn is not None:
+                # the whole sequence of components added in one step (`L.extend(S)`, `L += S`, `[*L, *S]`): like
+                # `join(directory, *S)` it needs a completed check of every component in front of it
+                whole = self.whole_of(site, nm.id)
+                wseq = self.seq_of(whole, sn) if whole is not None else None
+                if wseq is not None:
+                    ctx.ob("R14.1", "the checking loop ranges over all of *pathnames", wseq.all, f"`{norm(site)[:60]}` adds {wseq.text}", fi, site, f"safe_join loop over {norm(whole)[:40]}")
+                    self.shapes_at(sn, site, f"`{norm(site)[:60]}`")
+                    continue
             if arms_ is None or sn is None:
                 raise AnalysisError(f"safe_join: cannot interpret list growth `{norm(site)[:80]}` (expected one component added per step)")
             names_ = [a for a in arms_ if isinstance(a, ast.Name)]
@@ -888,6 +1011,40 @@ class _SafeJoin:
                 continue
             ctx.ob("R14.1", "the appended value is the loop's component (raw or normalised)", okw, f"`{norm(site)[:70]}`: `{norm(arg)[:40]}` originates from {sorted(_ddesc(d) for d in w_roots)}", fi, site, "safe_join appended value origin")
             self.shapes_in_pass(p, sn, site, w_roots, f"`{norm(site)[:60]}`", arg)
+
+    _LIST_MUTATORS = {"append", "extend", "insert", "pop", "remove", "clear", "sort", "reverse", "__setitem__", "__delitem__", "__iadd__", "appendleft", "extendleft", "popleft", "rotate"}
+
+    def inplace_changes(self, q: ast.Name, lead: int) -> None:
+        """the list `q` holds the whole sequence of components (behind `lead` trusted elements) and is joined as a
+        whole: whatever is done to it in place is part of what is joined.  Understood: `q[i] = x` inside a traversal
+        `for i, x in enumerate(<components>, start=lead)` where x is that traversal's component, raw or normalised -
+        the slot of a component is overwritten by (a normal form of) the same component.  Any other store is a
+        violation when it is of that form with another value or another slot, otherwise not understood."""
+        u, ctx, fi = self.u, self.ctx, self.fi
+        for n in own_nodes(self.fn):
+            if isinstance(n, ast.Call) and isinstance(n.func, ast.Attribute) and astq.is_name(n.func.value, q.id) and n.func.attr in self._LIST_MUTATORS:
+                raise AnalysisError(f"safe_join: cannot interpret `{norm(n)[:70]}`: the list `{q.id}` holds the whole sequence of components and is changed in place")
+            if isinstance(n, (ast.AugAssign, ast.Delete)) and any(isinstance(x, ast.Name) and x.id == q.id for tg in ([n.target] if isinstance(n, ast.AugAssign) else n.targets) for x in ast.walk(tg)):
+                raise AnalysisError(f"safe_join: cannot interpret `{norm(n)[:70]}`: the list `{q.id}` holds the whole sequence of components and is changed in place")
+            if not (isinstance(n, ast.Subscript) and isinstance(n.ctx, ast.Store) and astq.is_name(n.value, q.id)):
+                continue
+            st = astq.parent(n)
+            sn = self.cfg.node_of(st) if st is not None else None
+            loop = astq.enclosing(n, (ast.For, ast.AsyncFor, ast.While))
+            ps = self.pass_of(loop) if isinstance(loop, ast.For) else None
+            if not (isinstance(st, ast.Assign) and len(st.targets) == 1 and st.targets[0] is n and sn is not None and ps is not None and isinstance(loop, ast.For) and isinstance(loop.target, ast.Tuple) and isinstance(loop.iter, ast.Call)):
+                raise AnalysisError(f"safe_join: cannot interpret the store `{norm(st)[:70] if st is not None else norm(n)}` into the list of components `{q.id}`")
+            it = loop.iter
+            start = it.args[1] if len(it.args) == 2 else astq.kwarg(it, "start")
+            startv = start.value if isinstance(start, ast.Constant) else (0 if start is None else None)
+            idx = loop.target.elts[0]
+            own_slot = (
+                isinstance(idx, ast.Name) and isinstance(n.slice, ast.Name) and n.slice.id == idx.id and startv == lead and ps.seq.all
+                and all(d.kind == "for" and d.node is ps.head for d in self.rd.reaching(sn, idx.id))
+            )
+            roots = _roots(u, st.value.id, sn)[0] if isinstance(st.value, ast.Name) else set()
+            same = len(roots) == 1 and roots <= ps.roots
+            ctx.ob("R14.1", "what is stored in place into the joined list of components is the traversal's component, in its own slot", bool(own_slot and same), f"`{norm(st)[:70]}`: " + ("slot and value belong to the same component of " + ps.seq.text[:40] if own_slot and same else ("the value is not the component the traversal is at" if own_slot else "the slot is not the one the traversal's component came from")), fi, st, "safe_join slot store")
 
     def run(self) -> None:
         u, cfg, ctx, fi, fn = self.u, self.cfg, self.ctx, self.fi, self.fn
@@ -959,6 +1116,8 @@ class _SafeJoin:
                     if rest is not None and self.trusted_dir(first, d0.node) and self.seq_of(rest, d0.node) is not None:
                         seq, plain = self.seq_of(rest, d0.node), [first]
             if seq is not None:
+                # what is done to that list in place belongs to what is joined
+                self.inplace_changes(q, 1 if (plain and not [a for a in args if not isinstance(a, ast.Starred)]) else 0)
                 # the whole sequence is joined at once
                 ctx.ob("R14.1", "the checking loop ranges over all of *pathnames", seq.all and bool(plain), f"join({norm(plain[0]) if plain else ''}, *{q.id}) with {q.id}: {seq.text}", fi, r, f"safe_join loop over {q.id}")
                 self.n_growth += 1
@@ -1132,7 +1291,49 @@ def _subst(body: ast.AST, param: str, arg: ast.Name) -> ast.AST:
     return clone(body)
 
 
+def _through_local(u: Unit, e: ast.AST, at: Node) -> tuple[ast.AST, Node] | None:
+    """`first = x.partition("/")[0]` ... `first == ".."`: a comparison about a local that holds a part of the
+    component (first segment / leading slice, see `_derived`) is the comparison about that part, evaluated where the
+    local was bound - provided the binding is the one of this very value: no path from a definition of `x` to the
+    test avoids it (a part taken in an earlier iteration, or before `x` was bound again, says nothing).
+    -> (the comparison with the part written out, node of the binding)."""
+    if not (isinstance(e, ast.Compare) and len(e.ops) == 1):
+        return None
+    for side in ("left", "right"):
+        nm = e.left if side == "left" else e.comparators[0]
+        if not isinstance(nm, ast.Name) or not u._is_local(nm.id):
+            continue
+        defs = u.rd.reaching(at, nm.id)
+        d = next(iter(defs)) if len(defs) == 1 else None
+        if d is None or d.node is None or d.value is None:
+            continue
+        v: ast.AST | None = None
+        if d.kind in ("assign", "walrus") and d.index is None:
+            v = d.value
+            while isinstance(v, ast.NamedExpr):
+                v = v.value
+        elif d.kind == "unpack" and d.index == 0 and isinstance(d.target, ast.Name) and isinstance(d.value, ast.Call):
+            tgt = astq.parent(d.target)
+            if isinstance(tgt, (ast.Tuple, ast.List)) and not any(isinstance(x, ast.Starred) for x in tgt.elts):
+                v = ast.copy_location(ast.Subscript(value=d.value, slice=ast.Constant(value=0), ctx=ast.Load()), d.value)
+        der = _derived(v) if v is not None else None
+        if der is None:
+            continue
+        x = der[1]
+        starts = [dx.node if dx.node is not None else u.cfg.entry for dx in u.rd.reaching(d.node, x.id)]
+        if not starts or at.id in u.cfg.reach(starts, avoid_nodes=[d.node]):
+            continue
+        e2 = ast.copy_location(ast.Compare(left=v if side == "left" else e.left, ops=e.ops, comparators=[v] if side == "right" else e.comparators), e)
+        return e2, d.node
+    return None
+
+
 def _leaf_atoms(ctx: Ctx, u: Unit, e: ast.AST, at: Node):
+    sub = _through_local(u, e, at)
+    if sub is not None:
+        p = parse_atom(u, sub[0])
+        if p is not None:
+            return [(p[0], p[1], p[2], p[3], norm(sub[0]), sub[1])], True
     p = parse_atom(u, e)
     if p is not None:
         return [(p[0], p[1], p[2], p[3], norm(e), at)], True
@@ -1527,6 +1728,12 @@ def _sinks_rule(ctx: Ctx) -> None:
                 par = astq.parent(n)
                 if not (isinstance(par, ast.Call) and par.func is n) and not (isinstance(par, ast.Attribute) and par.value is n):
                     raise AnalysisError(f"{u.label}: the filesystem function `{norm(n)}` is used as a value (`{norm(par)[:60]}`): its call sites cannot be enumerated")
+            if isinstance(n, (ast.Attribute, ast.Name)) and isinstance(getattr(n, "ctx", None), ast.Load) and u.resolve(n) == "werkzeug.security.safe_join":
+                par = astq.parent(n)
+                if not (isinstance(par, ast.Call) and par.func is n):
+                    # `join_in = partial(safe_join, directory)`, an alias, a table entry: the containment check is
+                    # called somewhere under another name - which calls are checks is not known
+                    raise AnalysisError(f"{u.label}: safe_join is used as a value (`{norm(par)[:60]}`): the calls that perform the containment check cannot be enumerated")
         a, b = _null_rule(ctx, flow, u)
         n_none += a
         n_use += b
